@@ -25,7 +25,7 @@ ASSUMPTIONS = [
     'the value order (ties depend on storage order)',
 ]
 ANCHORS = ['Table.transform', 'Table.norm', 'Table.pa', 'Table.rankdata', '_normalize_table']
-REQUIRED = ['norm_signed_positive_total_vectors', 'tap_calls_checked', 'op_transform', 'op_norm', 'op_pa',
+REQUIRED = ['norm_with_repeated_ids', 'norm_signed_positive_total_vectors', 'tap_calls_checked', 'op_transform', 'op_norm', 'op_pa',
             'op_rankdata', 'cli_runs', 'axis_agreement_checked',
             'layout_csc_seen', 'layout_unsorted_seen', 'zero_cells_checked']
 
@@ -341,6 +341,31 @@ def run_case(ctx, index):
 def stress(ctx):
     from vm.checks import _stress
     _stress.stress_transform(ctx, ctx.rng('stress'))
+    # vectors are normalised one by one, whatever they are called: a table
+    # built under a profile that tolerates repeated ids (positions decide)
+    from biom.err import errstate
+    V = np.array([[2., 0., 6.], [1., 1., 2.], [0., 5., 5.]])
+    for axis, kind in (('sample', 'sampdup'), ('observation', 'obsdup')):
+        for inplace in (False, True):
+            with errstate(**{kind: 'ignore'}):
+                ids = ['x', 'y', 'x']
+                t = ctx.biom.Table(V.copy(),
+                                   ids if axis == 'observation' else
+                                   ['o1', 'o2', 'o3'],
+                                   ['s1', 's2', 's3'] if axis == 'observation'
+                                   else ids)
+                res = t.norm(axis=axis, inplace=inplace)
+            R = res.matrix_data.toarray()
+            tot = V.sum(axis=1 if axis == 'observation' else 0)
+            exp = V / (tot[:, None] if axis == 'observation' else
+                       tot[None, :])
+            if not np.allclose(R, exp, rtol=1e-12, atol=0):
+                raise Violation('C13/norm-result', 'table with a repeated %s '
+                                'id: norm gave %r, every vector divided by '
+                                'its own total is %r' % (axis, R.tolist(),
+                                                         exp.tolist()))
+            ctx.count('norm_with_repeated_ids')
+
 
 
 def san_indices(tier):
